@@ -29,6 +29,10 @@
 //	                  listeners (web, smtp, pop3: mask of 0/1) unable to bind: is readyFunc called, is a failure
 //	                  notified, and does what main() does next (cancel, Drain, Drain, Join) return?
 //
+//	scan <n> <nexpired> <k>  one retention pass (DoScan) over n mailboxes of which nexpired hold an expired message;
+//	                  the context is cancelled just before the k-th mailbox callback: how many callbacks run from
+//	                  then on (the one that notices, and not one more)?                     -> visited=<c> returned|blocked
+//
 //	ret <period> <n> <when>  retention scanner over n mailboxes: Start/Join and DoScan against cancellation
 package main
 
@@ -46,6 +50,7 @@ import (
 	"fmt"
 	"math/big"
 	"net"
+	"net/mail"
 	"os"
 	osexec "os/exec"
 	"strconv"
@@ -849,6 +854,62 @@ func runRet(period string, n int, when string) []string {
 	return outs
 }
 
+// countStore counts the per-mailbox callbacks of VisitMailboxes and cancels a context just before the k-th.
+type countStore struct {
+	storage.Store
+	k       int
+	cancel  context.CancelFunc
+	calls   int
+	after   int // callbacks invoked at or after the cancellation
+	tripped bool
+}
+
+func (c *countStore) VisitMailboxes(f func([]storage.Message) (cont bool)) error {
+	return c.Store.VisitMailboxes(func(ms []storage.Message) bool {
+		if c.calls == c.k && !c.tripped {
+			c.tripped = true
+			c.cancel()
+		}
+		c.calls++
+		if c.tripped {
+			c.after++
+		}
+		return f(ms)
+	})
+}
+
+func runScan(n, nexpired, k int) []string {
+	storage.Constructors["memory"] = mem.New
+	st, err := mem.New(config.Storage{MailboxMsgCap: 100}, extension.NewHost())
+	if err != nil {
+		return []string{"SETUP-FAILED"}
+	}
+	for i := 0; i < n; i++ {
+		age := time.Minute
+		if i < nexpired {
+			age = 3 * time.Hour
+		}
+		body := "Subject: s\r\n\r\nb\r\n"
+		d := &message.Delivery{Meta: event.MessageMetadata{Mailbox: fmt.Sprintf("box%03d", i), From: &mail.Address{Address: "a@b.org"},
+			To: []*mail.Address{{Address: "c@d.org"}}, Date: time.Now().Add(-age), Subject: "s", Size: int64(len(body))},
+			Reader: strings.NewReader(body)}
+		if _, err := st.AddMessage(d); err != nil {
+			return []string{"SETUP-ADD-FAILED"}
+		}
+	}
+	ctx, cancel := context.WithCancel(context.Background())
+	defer cancel()
+	cs := &countStore{Store: st, k: k, cancel: cancel}
+	rs := storage.NewRetentionScanner(config.Storage{RetentionPeriod: time.Hour, RetentionSleep: 2 * time.Millisecond}, cs)
+	done := make(chan struct{})
+	go func() { _ = rs.DoScan(ctx); close(done) }()
+	r := "returned"
+	if !waitCh(done, longWait+time.Duration(n)*10*time.Millisecond) {
+		r = "blocked"
+	}
+	return []string{fmt.Sprintf("visited=%d", cs.after), r}
+}
+
 // Every case runs in a child process: a panic in a bare goroutine of the code under test (e.g. a
 // send on a closed channel during the drain) kills the whole process, and that must become an
 // observation of THIS case, not the end of the run.
@@ -970,6 +1031,8 @@ func run1(kind string, in []string) []string {
 	switch kind {
 	case "boot":
 		return runBoot(in[0], in[1])
+	case "scan":
+		return runScan(vh.AtoI(in[0]), vh.AtoI(in[1]), vh.AtoI(in[2]))
 	case "life", "tls":
 		var ops []string
 		if in[0] != "-" {
